@@ -464,6 +464,7 @@ class RefPeer:
         self.pending = {}                   # seq -> parsed reply/exception received for our own requests
         self.refcounts = {self.ROOT: 0, self.TWICE: 0, self.ITER: 0, self.SEQ: 0, self.CTX: 0, self.KLASS: 0}
         self.iter_pos = 0
+        self.remote_seen = []               # id_packs of the sender's objects received as arguments
         self.ctx_log = []
         self.handled = set()
         self.refcounts.update((k, 0) for k in self.METHODS.values())
@@ -538,9 +539,16 @@ class RefPeer:
             if key not in self.refcounts:
                 raise KeyError(key)
             return _Obj(key)
-        raise TypeError("this peer does not accept references to the sender's objects")
+        if label == LABEL_REMOTE_REF:         # an object of the sender: kept as an opaque handle
+            if check_boxed(b):
+                raise TypeError(check_boxed(b))
+            self.remote_seen.append(tuple(payload))
+            return _Remote(tuple(payload))
+        raise TypeError("unknown boxing label %r" % (label,))
 
     def _box(self, v):
+        if isinstance(v, _Remote):            # handed back to its owner: a reference to an object of the RECEIVER
+            return box_local(v.id_pack)
         if isinstance(v, _Obj):
             self.refcounts[v.key] += 1
             return box_remote(v.key)
@@ -717,4 +725,10 @@ class CustomError(Exception):
 class _Obj:
     def __init__(self, key):
         self.key = key
+
+
+class _Remote:
+    """a reference to an object of the other side"""
+    def __init__(self, id_pack):
+        self.id_pack = id_pack
 
